@@ -4,7 +4,8 @@ import os
 from common import Check, Machinery, run_tlc, sharded_events, scratch_root
 
 CLAUSES = {"C16": {"earlier_result_changed_by_a_later_call", "zero_not_representable", "product_not_representable", "wrong_implementation_kind",
-                   "negated_most_negative_code_not_representable", "alphabet_wider_than_reported_bits"},
+                   "negated_most_negative_code_not_representable", "alphabet_wider_than_reported_bits",
+                   "float_product_not_representable"},
            "C17": {"sum_not_representable", "adder_sum_not_representable", "merge_add_sum_not_representable",
                    "merge_output_does_not_contain_operand"}}
 
@@ -29,7 +30,7 @@ def run(pid, tier, seed):
               "for C17 additionally x N x use_bias and adder operand pairs; distinct = the tuple")
   chk.assumptions = ["value lattices: operands = what the QKeras quantizer emits (C01/C03 semantics); reported "
                      "fixed-point type = two's-complement codes with frac = max(0, bits-sign-int_bits); reported po2 "
-                     "type = {0} u {+-2^e, e in get_exp interval}", "floating-point operands are not enumerated"]
+                     "type = {0} u {+-2^e, e in get_exp interval}", "floating-point operands (fp16 / fp32): only the kind and the width of the reported float type are judged"]
   mc = run_tlc("MC_QTypes", "MC_QTypes_" + tier, coverage=True)
   chk.add_mc("MC_QTypes_" + tier, mc, "transcribed rules vs value lattices on every operand pair")
   ops = None
@@ -45,15 +46,16 @@ def run(pid, tier, seed):
   rejects, errors, events = sharded_events(chk, "drive_qtypes.py", opath, "Trace_QTypes", tier, seed, "qtypes")
   mine = CLAUSES[pid]
   for e in errors:
-    if (pid == "C16") == (e["op"] == "mul"):
-      chk.violation({"clause": "raises", "op": e["op"], "w": opclass(e["w"]), "x": opclass(e["x"])}, e)
+    if (pid == "C16") == (e["op"] in ("mul", "fmul")):
+      oc = (lambda o: o["src"]) if e["op"] == "fmul" else opclass
+      chk.violation({"clause": "raises", "op": e["op"], "w": oc(e["w"]), "x": oc(e["x"])}, e)
   for ev, clauses in rejects:
     part = next((c[5:] for c in clauses if c.startswith("PART_")), None)      # which part of the property fails
     for cl in clauses:
       if cl.startswith("PART_"):
         continue
       if cl.startswith("DEV_"):
-        if (pid == "C16") == (ev["op"] == "mul"):
+        if (pid == "C16") == (ev["op"] in ("mul", "fmul")):
           chk.deviation(cl + ":" + ev["op"])
           if os.environ.get("VERIF_DEBUG"):
             print("DEV", json.dumps(ev))
@@ -62,6 +64,8 @@ def run(pid, tier, seed):
         continue
       if ev["op"] == "alias":
         ident = {"clause": cl}
+      elif ev["op"] == "fmul":
+        ident = {"clause": cl, "weight_float_bits": ev["wf"], "input_float_bits": ev["xf"]}
       elif ev["op"] == "mul":
         both = opclass(ev["w"]) + " " + opclass(ev["x"])
         ident = {"clause": cl, "kind": ev["kind"], "stochastic_twin": bool(ev.get("twin")), "po2_max_value_le_1": "max_value<=1" in both,
@@ -84,7 +88,7 @@ def run(pid, tier, seed):
         ident["fails"] = part             # "range": an end value does not fit; "step": resolution coarser than an operand
       chk.violation(ident, {"clause": cl, "event": ev})
   for ev in events:
-    if (pid == "C16") == (ev["op"] in ("mul", "alias")) and ev["op"] != "alias":
+    if (pid == "C16") == (ev["op"] in ("mul", "alias", "fmul")) and ev["op"] != "alias":
       chk.key(json.dumps(ev, sort_keys=True))
   chk.sample(next(e for e in events if (pid == "C16") == (e["op"] == "mul")))
   chk.cov["exhaustive"] = True
